@@ -73,6 +73,8 @@ func c11judged() []Choice {
 	// (d) handler precondition failures (the fee is paid)
 	cs = append(cs,
 		tx("stake(k2,min-1)", chain.TxSpec{Msg: "stake", From: 2, Amount: min - 1}),
+		tx("stake(k2,min) (fails once the stake denomination was changed)", chain.TxSpec{Msg: "stake", From: 2, Amount: min}),
+		tx("send(memo=abc) (fails once the memo limit was lowered)", chain.TxSpec{Msg: "send", From: 3, To: 2, Amount: 5, Memo: "abc"}),
 		tx("stake(k2,100min)", chain.TxSpec{Msg: "stake", From: 2, Amount: 100 * min}),
 		tx("stake(k0,min) already staked", chain.TxSpec{Msg: "stake", From: 0, Amount: min}),
 		tx("stake(secp key)", chain.TxSpec{Msg: "stake", From: 100, Amount: min}),
@@ -151,6 +153,9 @@ func c11context() []Choice {
 		{Label: "ctx:evidence(k0)", Block: chain.Block{Evidence: []chain.Evidence{{Val: 0, HeightAgo: 1, Age: time.Second}}}},
 		txB("ctx:raise-min", chain.TxSpec{Msg: "change_param", From: 4, Key: "pos/StakeMinimum", Val: `"2500000"`}),
 		txB("ctx:send(k3->k2)", chain.TxSpec{Msg: "send", From: 3, To: 2, Amount: 11}),
+		txB("ctx:change-stake-denom", chain.TxSpec{Msg: "change_param", From: 4, Key: "pos/StakeDenom", Val: `"ustake"`}),
+		txB("ctx:change-unstaking-time", chain.TxSpec{Msg: "change_param", From: 4, Key: "pos/UnstakingTime", Val: `"1"`}),
+		txB("ctx:lower-memo-limit", chain.TxSpec{Msg: "change_param", From: 4, Key: "auth/MaxMemoCharacters", Val: `"2"`}),
 	}
 }
 
